@@ -48,6 +48,16 @@ ASSUMPTIONS = [
     "gsd / mdtraj are not installed: frames are duck-typed objects with the attributes the HOOMD schema names "
     "(configuration.{step,dimensions,box}, particles.{N,position,typeid}); DCD object = read() -> (xyz, lengths, angles)",
 ]
+# coverage-guided shards (pbt/fuzz.py): the text readers are the branchiest code behind this property
+FUZZ = {
+    "log": {"quick": 700, "thorough": 40000},
+    "log_short_tail": {"quick": 500, "thorough": 20000},
+    "log_quoted_text": {"quick": 500, "thorough": 20000},
+    "centertype": {"quick": 700, "thorough": 40000},
+    "columns": {"quick": 700, "thorough": 40000},
+    "header_dump": {"quick": 500, "thorough": 20000},
+}
+
 MANIFEST = {
     "text": ("Generated-input round trips for every reader/writer named in C19: dump-header and data-header writers "
              "(facets header_dump, data_header), molecule-centre reader (centertype), column readers (columns), "
